@@ -448,6 +448,12 @@ impl EventGen for OtherElement {
         e.resolve_position(context)?; // transmute assumes some of this (e.g. dxy -> dx/dy) has been done
         e.transmute(context)?;
         e.resolve_position(context)?;
+        if matches!(e.name.as_str(), "polyline" | "polygon" | "path") {
+            // (worked out from the points once, rather than for every reference to it)
+            if let Ok(Some(points_bbox)) = e.bbox_raw() {
+                e.content_bbox = Some(points_bbox);
+            }
+        }
         context.update_element(&e);
         let mut bb = context.get_element_bbox(&e)?;
         if bb.is_some() {
@@ -1004,9 +1010,14 @@ impl Waiting {
         // (on the first attempt these are the current surroundings; only an element with
         // content can change them before it fails, so for the others they are not
         // recorded unless that happens)
+        // (a <var> assigns only once all its values are known: there is nothing to take
+        // back, and a record of the surroundings for each of many assignments would
+        // mean a copy of all variables for each)
+        let plain_var = matches!(t, Tag::Leaf(el, _) if el.name == "var"
+            && !el.attrs.iter().any(|(_, value)| value.contains('^')));
         let mut written_in = match self.waiting_in.remove(idx) {
             Some(surroundings) => Some(surroundings),
-            None if matches!(t, Tag::Compound(..)) || after_waiting => {
+            None if (matches!(t, Tag::Compound(..)) || after_waiting) && !plain_var => {
                 Some(context.surroundings())
             }
             None => None,
